@@ -351,22 +351,73 @@ def split_spellings(s):
     return [t for t in str(s).strip().split('|') if t]
 
 
-def replay_unit_map(tables, first_wins=True):
-    """tables: ordered [(table name, {unit: 'a|b|c'})] -> (unit_map, bound_by, shadows)
-    shadows: [(spelling, listed-under unit, table, bound unit, binding table)]"""
+_CASE_METHODS = {'lower': str.lower, 'upper': str.upper, 'casefold': str.casefold}
+_STRIP_METHODS = {'strip': str.strip, 'lstrip': str.lstrip, 'rstrip': str.rstrip}
+
+
+class BindTf:
+    """the string transformations bind_dictionary / bind_units_string apply before a spelling becomes a key of the map:
+    value: on the whole 'a|b|c' value (bind_dictionary argument + the chain before .split('|')); token: on each token
+    (subscript of the store); key: on the unit name.  Only argument-less case/strip methods are understood."""
+
+    def __init__(self, value=('strip',), token=(), key=()):
+        self.value, self.token, self.key = list(value), list(token), list(key)
+
+    @staticmethod
+    def _apply(s, names, only=None):
+        for n in names:
+            f = _CASE_METHODS.get(n) or _STRIP_METHODS.get(n)
+            if only is not None and n not in only:
+                continue
+            s = f(s)
+        return s
+
+    def bkey(self, tok):
+        """map key under which the listed spelling `tok` is bound"""
+        return self._apply(self._apply(tok, self.value, _CASE_METHODS), self.token)
+
+    def unit(self, u):
+        return self._apply(u, self.key)
+
+    def describe(self):
+        return 'value%s token%s unit-name%s' % tuple(''.join('.%s()' % n for n in x) or ' as is' for x in (self.value, self.token, self.key))
+
+
+PINNED_TF = BindTf()
+
+
+def str_chain(e, roots):
+    """x.m1().m2() over a root name in `roots` -> (root, [m1, m2]); None when e is anything else"""
+    names = []
+    while isinstance(e, ast.Call) and isinstance(e.func, ast.Attribute) and not e.args and not e.keywords:
+        names.append(e.func.attr)
+        e = e.func.value
+    if isinstance(e, ast.Name) and e.id in roots:
+        return e.id, names[::-1]
+    return None
+
+
+def replay_unit_map(tables, first_wins=True, tf=None):
+    """tables: ordered [(table name, {unit: 'a|b|c'})] -> (unit_map, bound_by, shadows); keys of both maps are the
+    BOUND keys (tf.bkey(spelling)); shadows: [(listed spelling, listed-under unit, table, bound unit, binding table)]"""
+    tf = tf or PINNED_TF
     um, by, shadows = {}, {}, []
     for tname, tab in tables:
         for unit, forms in tab.items():
             if not unit:
                 continue
+            ub = tf.unit(unit)
             for tok in split_spellings(forms):
-                if tok in um:
-                    if um[tok] != unit:
-                        shadows.append((tok, unit, tname, um[tok], by[tok]))
-                        if not first_wins:
-                            um[tok], by[tok] = unit, tname
+                k = tf.bkey(tok)
+                if not k:
                     continue
-                um[tok], by[tok] = unit, tname
+                if k in um:
+                    if um[k] != ub:
+                        shadows.append((tok, unit, tname, um[k], by[k]))
+                        if not first_wins:
+                            um[k], by[k] = ub, tname
+                    continue
+                um[k], by[k] = ub, tname
     return um, by, shadows
 
 
@@ -575,8 +626,26 @@ def check_mechanisms(chk, idx):
              and any(isinstance(x, ast.Compare) and isinstance(x.ops[0], ast.In) and isinstance(x.comparators[0], ast.Name)
                      and x.comparators[0].id == dname for x in ast.walk(n.test))]
     out['first_wins'] = bool(guard)
+    allowed = set(_CASE_METHODS) | set(_STRIP_METHODS)
+    if len(splits) != 1:
+        raise AnalysisError("DictionaryUtility.bind_units_string: expected one split('|')")
+    ch = str_chain(splits[0].func.value, {sname})
+    if ch is None or set(ch[1]) - allowed:
+        raise AnalysisError("DictionaryUtility.bind_units_string: value is transformed before split('|') in a way the replay "
+                            'cannot evaluate (%s)' % _src(splits[0].func.value))
+    pre_split = ch[1]
+    loops = [n for n in ast.walk(fn) if isinstance(n, ast.For) and isinstance(n.target, ast.Name)]
+    tvars = {n.target.id for n in loops}
+    if len(store) != 1:
+        raise AnalysisError('DictionaryUtility.bind_units_string: expected one store into the map')
+    ch = str_chain(store[0].targets[0].slice, tvars)
+    if ch is None or set(ch[1]) - allowed:
+        raise AnalysisError('DictionaryUtility.bind_units_string: the stored key %s is not the split token (or a case/strip '
+                            'method chain on it)' % _src(store[0].targets[0].slice))
+    tok_tf = ch[1]
     chk.ok(R, c.mod.path, 'DictionaryUtility.bind_units_string',
-           "split('|') of the stripped value; %s binding wins" % ('first' if guard else 'last'), fn.lineno)
+           "value%s.split('|'); token%s stored; %s binding wins" % (''.join('.%s()' % m for m in pre_split),
+                                                                  ''.join('.%s()' % m for m in tok_tf), 'first' if guard else 'last'), fn.lineno)
     # -- bind_dictionary: skips empty keys, delegates
     c, fn = _own(idx, NWU + '.utilities.DictionaryUtility', 'bind_dictionary')
     if not _calls(fn, 'bind_units_string') or not _calls(fn, 'items'):
@@ -585,7 +654,20 @@ def check_mechanisms(chk, idx):
                      and any(isinstance(b, ast.Continue) for b in n.body) for n in ast.walk(fn))
     if not skip_empty:
         raise AnalysisError('DictionaryUtility.bind_dictionary: empty-key skip not recognised')
-    chk.ok(R, c.mod.path, 'DictionaryUtility.bind_dictionary', 'every non-empty key is bound through bind_units_string', fn.lineno)
+    items = [n for n in ast.walk(fn) if isinstance(n, ast.For) and isinstance(n.target, ast.Tuple) and len(n.target.elts) == 2
+             and all(isinstance(e, ast.Name) for e in n.target.elts) and isinstance(n.iter, ast.Call)
+             and isinstance(n.iter.func, ast.Attribute) and n.iter.func.attr == 'items']
+    bcalls = _calls(fn, 'bind_units_string')
+    if len(items) != 1 or len(bcalls) != 1 or len(bcalls[0].args) != 3 or bcalls[0].keywords:
+        raise AnalysisError('DictionaryUtility.bind_dictionary: `for key, value in d.items(): bind_units_string(m, key, value)` not recognised')
+    kvar, vvar = [e.id for e in items[0].target.elts]
+    kch, vch = str_chain(bcalls[0].args[1], {kvar}), str_chain(bcalls[0].args[2], {vvar})
+    if kch is None or vch is None or (set(kch[1]) | set(vch[1])) - allowed:
+        raise AnalysisError('DictionaryUtility.bind_dictionary: bind_units_string is passed %s, %s - a transformation of the '
+                            'table entry the replay cannot evaluate' % (_src(bcalls[0].args[1]), _src(bcalls[0].args[2])))
+    out['bind_tf'] = BindTf(vch[1] + pre_split, tok_tf, kch[1])
+    chk.ok(R, c.mod.path, 'DictionaryUtility.bind_dictionary',
+           'every non-empty key is bound through bind_units_string; ' + out['bind_tf'].describe(), fn.lineno)
     # -- add_dict_to_unit_map binds into self.unit_map; the base constructor wires the BaseCurrency tables
     c, fn = _own(idx, NWU + '.parsers.NumberWithUnitParserConfiguration', 'add_dict_to_unit_map')
     chk.consulted(c.mod.path)
@@ -1104,6 +1186,10 @@ def run(chk):
              '(suffix_list + prefix_list values vs unit_map keys); tables non-empty', floor=22, control=True)
     chk.rule('C05.merge', '{**A, **B} table merges have no unit key with differing spelling lists', floor=4, control=True)
     chk.rule('C05.side', '*PrefixList tables are wired into prefix_list and *SuffixList tables into suffix_list', floor=35, control=True)
+    chk.rule('C05.prefix-pick', 'the prefix unit chosen left of a number is the left-most (longest) prefix match that reaches up '
+             'to the number - tabulated by interpreting the selection statements of NumberWithUnitExtractor.extract on '
+             'abstract match lists (all token-suffix subsets, with/without gap, decoys before and behind the number)',
+             floor=1, control=True)
     chk.rule('C05.fresh', 'the map add_dict_to_unit_map binds into is a fresh per-instance dict when the constructors fill it '
              '(not a class-level / module-level object shared by all configurations)', floor=1, control=True)
     chk.rule('C05.shadow', 'replaying add_dict_to_unit_map in order, every spelling is bound to the unit whose entry lists it',
@@ -1164,6 +1250,7 @@ def run(chk):
             done_p.add(pq)
             nforms += rule_shadow_key_case(ctx, p, ex, pa)
     rule_fresh(ctx)
+    rule_prefix_pick(ctx)
     rule_ratio_use(ctx)
     rule_currency(ctx)
     rule_purity_dangling(ctx)
@@ -1510,11 +1597,11 @@ def map_origin(ctx, pcfg):
     return res
 
 
-def cross_bindings(tables_by_cfg):
+def cross_bindings(tables_by_cfg, tf=None):
     """{cfg: ordered [(table, dict)]} bound into ONE map -> spellings that different configurations bind to different units"""
     seen, out = {}, {}
     for cfg, tabs in tables_by_cfg.items():
-        um, _, _ = replay_unit_map(tabs)
+        um, _, _ = replay_unit_map(tabs, True, tf)
         for tok, unit in um.items():
             if tok in seen and seen[tok][1] != unit:
                 out.setdefault(tok, {seen[tok]}).add((cfg, unit))
@@ -1540,7 +1627,7 @@ def rule_fresh(ctx):
             pa = parser_tables(ctx, c)
             if not isinstance(pa, str):
                 tabs[c.name] = [(n, d) for n, d, _, _, _ in pa]
-        cross = cross_bindings(tabs)
+        cross = cross_bindings(tabs, ctx['mech']['bind_tf'])
         ex = ['%r: %s' % (tok, ' / '.join("'%s' (%s)" % (u, c) for c, u in sorted(v))) for tok, v in sorted(cross.items())[:4]]
         chk.bad('C05.fresh', path or cfgs[0].mod.path, '%s shared by %d configurations' % (an.map_attr, len(cfgs)),
                 origin,
@@ -1590,11 +1677,13 @@ def rule_tables(ctx, p, ex, pa):
                 for t in split_spellings(forms):
                     if not t.isspace():
                         e_sp.setdefault(t, n)
-    um, by, _ = replay_unit_map([(n, d) for n, d, _, _, _ in pa], ctx['mech']['first_wins'])
+    tf = ctx['mech']['bind_tf']
+    um, by, _ = replay_unit_map([(n, d) for n, d, _, _, _ in pa], ctx['mech']['first_wins'], tf)
     et = sorted({n for s in ('suffix', 'prefix') for n, _, _ in ex[s]})
     pt = sorted({n for n, _, _, _, _ in pa})
-    only_e = sorted(t for t in e_sp if t not in um)
-    only_p = sorted(t for t in um if t not in e_sp)
+    e_keys = {tf.bkey(t) for t in e_sp}
+    only_e = sorted(t for t in e_sp if tf.bkey(t) not in um)
+    only_p = sorted(t for t in um if t not in e_keys)
     if not e_sp or not um:
         chk.bad('C05.tables', path, construct, 'empty', 'registered configuration pair has %d extractor spellings and %d bound '
                 'spellings' % (len(e_sp), len(um)), line)
@@ -1617,7 +1706,8 @@ def rule_shadow_key_case(ctx, p, ex, pa):
     if isinstance(ex, str) or isinstance(pa, str):
         return 0
     pcfg = p.pcfg
-    um, by, shadows = replay_unit_map([(n, d) for n, d, _, _, _ in pa], mech['first_wins'])
+    tf = mech['bind_tf']
+    um, by, shadows = replay_unit_map([(n, d) for n, d, _, _, _ in pa], mech['first_wins'], tf)
     shadowed = {(tok, unit, tname): (bound, btab) for tok, unit, tname, bound, btab in shadows}
     conn = an.prop(pcfg, 'connector_token')
     if conn is None or not conn.known or not (conn.value is None or isinstance(conn.value, str)):
@@ -1649,7 +1739,7 @@ def rule_shadow_key_case(ctx, p, ex, pa):
                             "resolves to unit '%s'" % (tok, unit, tname, sh[1], sh[0], tok, sh[0]), rline)
                     continue
                 chk.ok('C05.shadow', rpath, '%s in %s' % (sc, pcfg.name), '', rline)
-                if by.get(tok) != tname:
+                if by.get(tf.bkey(tok)) != tname:
                     continue       # duplicate listing of the same unit in a later table
                 # -- the parser finds its own key
                 got, k = parser_lookup(um, tok, conn, mech['connector'])
@@ -1713,6 +1803,135 @@ def rule_ratio_use(ctx):
         chk.observe("C05.ratio-use: bare trailing number in 'N <main> and M' is no longer divided by the constant 100 (%s)" % why)
 
 
+# ---- prefix selection in NumberWithUnitExtractor.extract (tabulated with sa/ointerp.py) ---------------------
+
+def find_prefix_selection(fn):
+    """the statements of `extract` that choose the prefix unit on the left of a number, and the name they leave it in:
+    the block ends at `if <best> is not None:` whose body registers the unit (add_element)"""
+    par = _parents(fn)
+    cands = []
+    for n in ast.walk(fn):
+        if isinstance(n, ast.If) and isinstance(n.test, ast.Compare) and isinstance(n.test.left, ast.Name) \
+                and len(n.test.ops) == 1 and isinstance(n.test.ops[0], ast.IsNot) and isinstance(n.test.comparators[0], ast.Constant) \
+                and n.test.comparators[0].value is None and _calls(n, 'add_element'):
+            cands.append(n)
+    if len(cands) != 1:
+        raise AnalysisError('NumberWithUnitExtractor.extract: `if <best match> is not None: ... add_element(...)` found %d times' % len(cands))
+    use = cands[0]
+    best = use.test.left.id
+    block = None
+    for field in ('body', 'orelse'):
+        b = getattr(par[use], field, None)
+        if isinstance(b, list) and use in b:
+            block = b
+    if block is None:
+        raise AnalysisError('NumberWithUnitExtractor.extract: enclosing block of the prefix selection not found')
+    stmts = block[:block.index(use)]
+    if not any(isinstance(t, ast.Name) and t.id == best for st in stmts for a in ast.walk(st) if isinstance(a, (ast.Assign, ast.AnnAssign))
+               for t in (a.targets if isinstance(a, ast.Assign) else [a.target])):
+        raise AnalysisError('NumberWithUnitExtractor.extract: %s is not assigned in the block before its use' % best)
+    return stmts, best, use.lineno
+
+
+PREFIX_WORDS = ('aa', 'bb', '$')
+
+
+def prefix_scenarios():
+    """(source, number start, [(start, length, text)] sorted by start, expected chosen start | None)
+    candidates are the token-suffixes of 'aa bb $' ending at the number (with or without a blank), every non-empty subset
+    of them, optionally a match that does not reach the number and a match that lies behind the number"""
+    out = []
+    for gap in (' ', ''):
+        unit = ' '.join(PREFIX_WORDS)
+        source = 'x ' + unit + gap + '3 $'
+        base = 2
+        start = base + len(unit) + len(gap)
+        sufs = []
+        pos = base
+        for i, w in enumerate(PREFIX_WORDS):
+            text = ' '.join(PREFIX_WORDS[i:])
+            sufs.append((pos, len(text), text))
+            pos += len(w) + 1
+        short = (base, len(PREFIX_WORDS[0]), PREFIX_WORDS[0])            # 'aa' alone: ends before the number
+        behind = (start + 2, 1, '$')                                    # the '$' after the number
+        for mask in range(1, 2 ** len(sufs)):
+            chosen = [m for i, m in enumerate(sufs) if mask & (1 << i)]
+            for extra in ((), (short,), (behind,), (short, behind)):
+                ms = sorted(chosen + list(extra), key=lambda m: (m[0], -m[1]))
+                out.append((source, start, ms, min(m[0] for m in chosen)))
+        out.append((source, start, [short, behind], None))
+    return out
+
+
+def tabulate_prefix_selection(idx, stmts, best, mod, cls, where):
+    """run the selection statements on every scenario -> [(scenario text, got, expected)] mismatches, n scenarios"""
+    from ..ointerp import Interp, Env, PyExc
+    it = Interp(idx, where=where, budget=200000)
+    mr = idx.cls('recognizers_text.matcher.match_result.MatchResult')
+    bad = []
+    scen = prefix_scenarios()
+    for source, start, ms, want in scen:
+        it.budget = 200000
+        objs = []
+        for (st_, ln, tx) in ms:
+            o = it.instantiate(mr, [st_, ln], {}, None)
+            env0 = Env()
+            env0.vars.update({'o': o, 't': tx})
+            it.block(ast.parse('o.text = t').body, env0, mr.mod, None)
+            objs.append(o)
+        env = Env()
+        env.vars.update({'source': source, 'start': start, 'prefix_match': objs, 'length': 1})
+        try:
+            it.block(stmts, env, mod, cls)
+        except PyExc as ex:
+            bad.append(('%r matches %s' % (source, ms), 'raises %s' % ex, want))
+            continue
+        ok, got = env.get(best)
+        if not ok:
+            raise AnalysisError('%s: %s not bound after the selection statements' % (where, best))
+        gs = None if got is None else it.getattr(got, 'start', None, None)
+        if gs != want:
+            bad.append(('%r number at %d, prefix matches %s' % (source, start, [(a, c) for a, b, c in ms]), gs, want))
+    return bad, len(scen)
+
+
+def rule_prefix_pick(ctx):
+    chk, idx = ctx['chk'], ctx['idx']
+    c = idx.cls(NWU + '.extractors.NumberWithUnitExtractor')
+    fn = c.methods.get('extract')
+    if fn is None:
+        raise AnalysisError('anchor vanished: NumberWithUnitExtractor.extract')
+    stmts, best, line = find_prefix_selection(fn)
+    bad, n = tabulate_prefix_selection(idx, stmts, best, c.mod, c, 'C05.prefix-pick')
+    # table side: multi-word prefix spellings whose proper word-suffix is itself a listed prefix of the same configuration
+    affected, total = [], 0
+    seen = set()
+    for p in ctx['pairs'].values():
+        if p.ecfg.qual in seen:
+            continue
+        seen.add(p.ecfg.qual)
+        ex = extractor_tables(ctx, p.ecfg)
+        if isinstance(ex, str):
+            continue
+        sp = {t for _, d, _ in ex['prefix'] for forms in d.values() for t in split_spellings(forms)}
+        total += len(sp)
+        for t in sorted(sp):
+            w = t.split()
+            if len(w) > 1 and any(' '.join(w[i:]) in sp for i in range(1, len(w))):
+                affected.append('%s %r' % (p.ecfg.name, t))
+    construct = 'NumberWithUnitExtractor.extract: choice of the prefix unit left of a number'
+    if bad:
+        for scen, got, want in bad[:3]:
+            chk.bad('C05.prefix-pick', c.mod.path, construct, 'chosen start %s, left-most qualifying %s: %s' % (got, want, scen),
+                    'among the prefix matches that reach up to the number the code keeps the one starting at %s, not the '
+                    'left-most (longest) one at %s, on %s (%d of %d tabulated configurations differ): a multi-word prefix '
+                    'spelling whose tail is itself a listed prefix shrinks to that tail - %d listed prefix spellings are of '
+                    'that kind, e.g. %s' % (got, want, scen, len(bad), n, len(affected), '; '.join(affected[:4])), line)
+    else:
+        chk.ok('C05.prefix-pick', c.mod.path, construct, 'left-most qualifying prefix match wins on all %d tabulated configurations' % n, line)
+    chk.extra['prefix_spellings_with_listed_tail'] = len(affected)
+
+
 # ---- currency code tables ---------------------------------------------------------------------------
 
 SLOTS = (('currency_name_to_iso_code_map', 'own', 'CurrencyNameToIsoCodeMap'),
@@ -1742,6 +1961,16 @@ def rule_currency(ctx):
     chk.consulted(basec.mod.path)
     basev = an.R.values(basec)
     done = set()
+    tf0 = ctx['mech']['bind_tf']
+    if tf0.key:
+        # the canonical unit names themselves are transformed before binding: no bound unit equals a key of the ISO /
+        # fraction tables any more, so the per-unit currency instances below legitimately vanish
+        u = idx.cls(NWU + '.utilities.DictionaryUtility')
+        chk.bad('C05.iso', u.mod.path, 'DictionaryUtility.bind_dictionary: unit name passed to bind_units_string', tf0.describe(),
+                'the unit name is transformed (%s) before it is bound: the parser resolves every spelling to the transformed name, '
+                'which is neither the table\'s canonical unit nor a key of CurrencyNameToIsoCodeMap / FractionalUnitNameToCodeMap '
+                '(no isoCurrency, no fraction merge)' % tf0.describe(), u.methods['bind_dictionary'].lineno)
+        chk.rules['C05.ratio']['floor'] = 0
     for (eq, pq), p in sorted(ctx['pairs'].items()):
         et = an.prop(p.ecfg, 'extract_type')
         if not (et is not None and et.known and et.value == cnode.value) or pq in done:
@@ -1784,7 +2013,7 @@ def rule_currency(ctx):
             continue
         iso, frac = wired['currency_name_to_iso_code_map'], wired['currency_fraction_code_list']
         ratios, fmap = wired['currency_fraction_num_map'], wired['currency_fraction_mapping']
-        um, _, _ = replay_unit_map([(n, d) for n, d, _, _, _ in pa], ctx['mech']['first_wins'])
+        um, _, _ = replay_unit_map([(n, d) for n, d, _, _, _ in pa], ctx['mech']['first_wins'], ctx['mech']['bind_tf'])
         units = set(um.values())
         rpath, rline = res_loc(ctx, [(basec.qual, 'CurrencyFractionalRatios')])
         live_frac = False
@@ -1941,6 +2170,25 @@ def controls(chk, mech):
                 and parser_lookup(um, 'decimetro', 'de')[0] == 'Decimetro' and parser_lookup(um, '(metro)', '')[0] == 'Metro')
     xb = cross_bindings({'Dim': [('L', {'Foot': 'ft|foot'})], 'Cur': [('C', {'Forint': 'ft|forint'})]})
     chk.control('C05.fresh', sorted(xb) == ['ft'] and not cross_bindings({'A': [('L', {'Foot': 'ft'})], 'B': [('M', {'Foot': 'ft'})]}))
+    sel = ("def extract(self, source):\n"
+           "    if max_find_pref != 0:\n"
+           "        last_index = start\n"
+           "        best_match = None\n"
+           "        for m in prefix_match:\n"
+           "            if m.length > 0 and m.end > start:\n"
+           "                break\n"
+           "            if m.length > 0 and source[m.start:last_index].strip() == m.text:\n"
+           "                best_match = m\n"
+           "%s"
+           "        if best_match is not None:\n"
+           "            self.add_element(mapping_prefix, start, best_match)\n")
+    idx_ = get_index()
+    kx = idx_.cls(NWU + '.extractors.NumberWithUnitExtractor')
+
+    def seltab(extra):
+        st_, b_, _ = find_prefix_selection(ast.parse(sel % extra).body[0])
+        return tabulate_prefix_selection(idx_, st_, b_, kx.mod, kx, 'C05.prefix-pick.control')[0]
+    chk.control('C05.prefix-pick', len(seltab('')) > 0 and not seltab('                break\n'))
     chk.control('C05.blank', parser_lookup(um, ' pinta', '')[0] is None)
     pre = mech['preprocess']
     chk.control('C05.case', pre('5 Rwandan Zorkmid ') == '5 rwandan zorkmid '
